@@ -1259,7 +1259,12 @@ func c47pFetched(p *syncProgressV2, h common.Hash) bool {
 	return true
 }
 
-const c47pMult = 0.3
+const c47pMult = 0.4
+
+// c47pCycleBound bounds one Sync cycle. The states are small (a cycle needs well under a
+// second of CPU), and a scheduler that keeps serving requests without getting anywhere
+// never trips the no-progress rule, so the total bound is what ends a livelock.
+const c47pCycleBound = 2 * time.Minute
 
 func TestVerifC47PivotV2(t *testing.T) {
 	st := vs.New("C47", t)
@@ -1399,7 +1404,7 @@ func TestVerifC47PivotV2(t *testing.T) {
 			}
 			history = append(history, fmt.Sprintf("cycle %d: pivot #%d cancelAfter=%dreq/%dacc fresh=%v peers=%s", ci, chain.pivots[cur], step.cancelAt, step.cancelAccts, step.fresh, sets[ci].desc))
 			syc := sy
-			out := c47Sync(func(cc chan struct{}) error { return syc.Sync(target, cc) }, func() string { return c47DumpSyncerV2(syc) }, run, base, 6*time.Minute)
+			out := c47Sync(func(cc chan struct{}) error { return syc.Sync(target, cc) }, func() string { return c47DumpSyncerV2(syc) }, run, base, c47pCycleBound)
 			total.served.Add(run.served.Load())
 			total.rejected.Add(run.rejected.Load())
 			total.tampered.Add(run.tampered.Load())
